@@ -255,7 +255,7 @@ class Run(object):
         self.out.probe('first_callback_of_a_brand_new_foreign_thread')
 
     # ---- two brand-new foreign threads, both past the callback entry before either holds the GIL ----
-    def gated_pair(self, w, pre_x, pre_y, xp_x, xp_y, first, body_x, body_y):
+    def gated_pair(self, w, pre_x, pre_y, xp_x, xp_y, first, body_x, body_y, warm_x=0, warm_y=0):
         self.pair_n = getattr(self, 'pair_n', 0) + 1
         kx, ky = 'pairX%d' % self.pair_n, 'pairY%d' % self.pair_n
         filt = lambda b: [st for st in b if st[0] not in ('pt', 'cb', 'gv')]
@@ -263,7 +263,9 @@ class Run(object):
         self.cur[kx] = [(filt(body_x), False, 2, pre_x)]
         self.cur[ky] = [(filt(body_y), False, 2, pre_y)]
         self.pair_keys = {-98: kx, -97: ky}
-        out4 = self.drv.gated_pair(-98, -97, pre_x, pre_y, xp_x, xp_y, first)
+        out4 = self.drv.gated_pair(-98, -97, pre_x, pre_y, xp_x, xp_y, first, -96 if warm_x else 0, -95 if warm_y else 0)
+        if warm_x or warm_y:
+            self.out.probe('gated_callback_of_a_thread_that_already_has_a_thread_state')
         self.pair_keys = None
         self.out.fault('two_callbacks_entered_before_either_holds_the_GIL')
         if self.violation is None:
@@ -277,6 +279,8 @@ class Run(object):
 
     # ---- foreign thread body (ftdriver): same scripts, own shadow ----
     def foreign_body(self, who, arg):
+        if who in (-96, -95):        # warm-up callback of a gated thread
+            return arg + 1
         if who in (-98, -97):
             key = self.pair_keys[who]
             self.S[key] = arg
@@ -448,7 +452,8 @@ class C22(core.Check):
                 px, py = rng.sample(VALUES[1:10], 2)
                 threads[t].insert(rng.randint(0, len(threads[t])),
                                   ['gatedpair', px, py, rng.below(2), rng.below(2), rng.below(2),
-                                   self.gen_steps(rng, rng.randint(0, 3), 2), self.gen_steps(rng, rng.randint(0, 3), 2)])
+                                   self.gen_steps(rng, rng.randint(0, 3), 2), self.gen_steps(rng, rng.randint(0, 3), 2),
+                                   rng.below(2), rng.below(2)])
             for _ in range(rng.randint(0, 2)):
                 t = rng.below(len(threads))
                 threads[t].insert(rng.randint(0, len(threads[t])),
